@@ -527,6 +527,12 @@ def call_builtin_class(I, cls, a, k):
             return I.builtins['list']
         if isinstance(v, PyDict):
             return I.builtins['dict']
+        if isinstance(v, Opaque):
+            # the class of an external object: some class object, the same one at every call (nothing is known about it)
+            t = getattr(v, '_type_object', None)
+            if t is None:
+                t = v._type_object = Opaque('type of ' + getattr(v, 'name', 'object'))
+            return t
         raise M.Unsupported('type() of %r' % (v,))
     if n == 'deque':
         l = PyList(I.iterate(a[0]) if a and a[0] is not None else [])
